@@ -16,6 +16,7 @@ Closure / parseability of emitted text is NOT decided. Decided:
      diagnostic.
 """
 from .lib import *
+from .lib import _tail_values as _tail_values_
 from .lib import _tail_values
 
 EXPLANATION = (
@@ -132,6 +133,31 @@ def run(F, R, tier):
         ok = any(x.kind == "cond" and not x.pol and x.node.get("k") == "MethodCall" and x.node["name"] == "contains_key" and peel(x.node["args"][0]).get("v") == "default" for x in g)
         R.ob("C09-L", "an already traced subset is replaced by Star only if it does not contain `default`", ok,
              "`*self = ImportedExports::Star` is not guarded by `!subset.contains_key(\"default\")`: Star does not cover `default`, so a previously requested default export is forgotten and the emitted module drops a name that importers still import", where(a))
+    # what `add` reports as newly requested (None = nothing new to trace)
+    IE = "fast_check::range_finder::ImportedExports::"
+    vals_ = []
+    _tail_values_(F, ad["body"]["value"], vals_)
+    n_t = 0
+    for v in vals_:
+        g = guards_at(F, v)
+        selfk = {k_ for x in g if x.kind == "pat" and x.pol and peel_value(x.scrut).get("lid") == ad["body"]["params"][0].get("lid") for k_ in ("Star", "StarWithDefault", "Subset") if pat_text(x.pat).startswith(IE + k_ + "(") or pat_text(x.pat) == IE + k_}
+        newk = {k_ for x in g if x.kind == "pat" and x.pol and peel_value(x.scrut).get("lid") == ad["body"]["params"][1].get("lid") for k_ in ("Star", "StarWithDefault", "Subset") if pat_text(x.pat).startswith(IE + k_ + "(") or pat_text(x.pat) == IE + k_}
+        if len(selfk) != 1:
+            continue
+        sk = next(iter(selfk))
+        nk = next(iter(newk)) if len(newk) == 1 else None
+        has_default = [x.pol for x in g if x.kind == "cond" and x.node.get("k") == "MethodCall" and x.node["name"] == "contains_key" and peel(x.node["args"][0]).get("v") == "default"]
+        is_none = ctor_of(v) == "std::option::Option::None"
+        if sk == "StarWithDefault":
+            want_none = True
+        elif sk == "Star":
+            want_none = (nk == "Star") or (nk == "Subset" and has_default == [False])
+        else:
+            want_none = False
+        n_t += 1
+        R.ob("C09-L", "merging %s with %s%s reports %s" % (sk, nk or "*", "" if not has_default else (" (default requested)" if has_default[0] else " (default not requested)"), "nothing new" if want_none else "the newly requested exports"), is_none == want_none,
+             "ImportedExports::add(%s <- %s) returns `%s`: %s" % (sk, nk, expr_text(v)[:40], "exports that were never traced are reported as handled, so they are missing from the emitted module" if is_none else "already traced exports are traced again"), where(v))
+    R.floor("C09-L results of ImportedExports::add", n_t, 8)
     ups = [n for n in ad["_nodes"] if n["k"] == "Assign" and ctor_of(peel(n["r"])) == "fast_check::range_finder::ImportedExports::StarWithDefault"]
     R.ob("C09-L", "merging can upgrade to StarWithDefault", len(ups) >= 3, "only %d upgrade site(s) to StarWithDefault" % len(ups), ad["file"])
     mm = [n for n in ad["_nodes"] if n["k"] == "Match"]
@@ -201,6 +227,38 @@ def run(F, R, tier):
     vb = F.body(vck)
     ok = any(callee_matches(n, [DF + "::with_context"]) and any(ctor_of(x) == "symbols::dep_analyzer::ReferenceNamespace::Value" for x in walk(n)) for n in vb["_nodes"])
     R.ob("C09-D", "visit_computed_key switches to the value namespace", ok, "visit_computed_key no longer visits the key under ReferenceNamespace::Value", vb["file"])
+
+    # every kind of declaration has its references collected: each leaf arm of DepsFiller::fill
+    # visits the node it matched (containers whose children are symbols of their own excepted)
+    NO_DEPS = {"SymbolNodeRef::Module": "children are symbols of their own", "SymbolNodeRef::TsNamespace": "children are symbols of their own", "ExportDeclRef::TsModule": "children are symbols of their own"}
+    fb = F.body(DF + "::fill")
+    n_arm = 0
+    def leaf_arms(m):
+        for arm in m["arms"]:
+            inner = peel(arm["body"])
+            while inner.get("k") == "Block" and not inner["stmts"] and "expr" in inner:
+                inner = peel(inner["expr"])
+            if inner.get("k") == "Match" and (tyc(F, inner["scrut"], "ExportDeclRef") or tyc(F, inner["scrut"], "DefaultDecl")):
+                yield from leaf_arms(inner)
+            else:
+                yield arm
+    top_m = [n for n in fb["_nodes"] if n["k"] == "Match" and tyc(F, n["scrut"], "SymbolNodeRef")]
+    if R.ob("C09-D", "DepsFiller::fill dispatches on the declaration kind", len(top_m) >= 1, "shape changed", fb["file"]):
+        for arm in leaf_arms(top_m[0]):
+            v, c = pat_variants(arm["pat"])
+            names = {"::".join(x.split("::")[-2:]) for x in v}
+            n_arm += 1
+            if c and not v:
+                R.ob("C09-D", "no catch-all in DepsFiller::fill", False, "a catch-all arm would silently give new declaration kinds no dependencies", where(arm["body"]))
+                continue
+            if names and names <= set(NO_DEPS):
+                R.ob("C09-D", "%s has no references of its own (reviewed)" % sorted(names), not any(x.get("k") in ("Call", "MethodCall") for x in walk(arm["body"])), "reviewed no-op arm now does something", where(arm["body"]), nontrivial=False)
+                continue
+            binds = {b_["lid"] for b_ in pat_bindings(arm["pat"])}
+            visits = [x for x in walk(arm["body"]) if x.get("k") == "MethodCall" and x["name"].startswith("visit_") and binds]
+            R.ob("C09-D", "references of %s are collected" % sorted(names)[0], bool(visits),
+                 "the %s arm of DepsFiller::fill visits nothing of the matched node: what such a declaration references is never traced, so the emitted declaration file mentions names it does not declare" % sorted(names), where(arm["body"]))
+    R.floor("C09-D leaf arms of DepsFiller::fill", n_arm, 30)
 
     # ---------------- C09-R (referrer of a re-queued qualified trace) ----------
     # the Id trace decides from the referrer whether the parent of a member has
